@@ -8,7 +8,7 @@ git -C /repo worktree add -q $wt HEAD >/dev/null 2>&1 || { echo '{"error":"workt
 cleanup() { git -C /repo worktree remove --force $wt >/dev/null 2>&1; rm -f /tmp/seedeval_*.$$.*; }
 trap cleanup EXIT
 if ! git -C $wt apply $patch 2>/tmp/seedeval_apply.$$.err; then echo "{\"error\":\"patch does not apply: $(head -c 200 /tmp/seedeval_apply.$$.err | tr '\n\"' '  ')\"}"; exit 3; fi
-passed=$(cd $wt && /venv/bin/python -m pytest -q -p no:cacheprovider --timeout=900 --continue-on-collection-errors 2>&1 | tail -1 | grep -o '[0-9]* passed' | grep -o '[0-9]*')
+[ -n "$SKIP_TESTS" ] && passed="skipped" || passed=$(cd $wt && /venv/bin/python -m pytest -q -p no:cacheprovider --timeout=900 --continue-on-collection-errors 2>&1 | tail -1 | grep -o '[0-9]* passed' | grep -o '[0-9]*')
 timeout 600 /venv/bin/python $demo $wt >/tmp/seedeval_demo_changed.$$.out 2>&1; rc_changed=$?
 timeout 600 /venv/bin/python $demo /repo >/tmp/seedeval_demo_orig.$$.out 2>&1; rc_orig=$?
 results=""
